@@ -152,6 +152,7 @@ class SuccessionDiagram:
     def __getstate__(self) -> SuccessionDiagramState:
         return {
             "network_rules": self.network.to_aeon(),
+            "variable_order": self.network.variable_names(),
             "petri_net": self.petri_net,
             "nfvs": self.nfvs,
             "dag": self.dag,
@@ -161,7 +162,22 @@ class SuccessionDiagram:
 
     def __setstate__(self, state: SuccessionDiagramState):
         # In theory, the network should be cleaned-up at this point, but just in case...
-        self.network = cleanup_network(BooleanNetwork.from_aeon(state["network_rules"]))
+        network = BooleanNetwork.from_aeon(state["network_rules"])
+        # The `.aeon` parser orders variables alphabetically. Space keys in `node_indices`
+        # depend on the variable order, so the original order has to be restored.
+        variable_order = state.get("variable_order")
+        if variable_order is not None and network.variable_names() != variable_order:
+            reordered = BooleanNetwork(variables=variable_order)
+            for regulation in network.regulations():
+                regulation["source"] = network.get_variable_name(regulation["source"])
+                regulation["target"] = network.get_variable_name(regulation["target"])
+                reordered.add_regulation(regulation)
+            for name in variable_order:
+                update = network.get_update_function(name)
+                if update is not None:
+                    reordered.set_update_function(name, str(update))
+            network = reordered
+        self.network = cleanup_network(network)
         self.symbolic = AsynchronousGraph(self.network)
         self.petri_net = state["petri_net"]
         self.nfvs = state["nfvs"]
